@@ -253,12 +253,17 @@ def run(ctx: Ctx) -> None:
     for n in own_nodes(dr.node):
         if isinstance(n, ast.NamedExpr) and hdr_read and n.value is hdr_read[0]:
             hdr_var = n.target.id
+        if isinstance(n, (ast.Assign, ast.AnnAssign)) and hdr_read and n.value is hdr_read[0]:
+            t0 = n.targets[0] if isinstance(n, ast.Assign) else n.target
+            if isinstance(t0, ast.Name):
+                hdr_var = t0.id
+    keep = {hdr_var} if hdr_var else set()
     size_read = [c for c in reads if c.args and not isinstance(c.args[0], ast.Constant)]
-    r_size = be16(inline(dr, size_read[0].args[0])) if size_read else None
+    r_size = be16(inline_except(dr, size_read[0].args[0], keep)) if size_read else None
     r_marker = None
     for n in own_nodes(dr.node):
         if isinstance(n, ast.Compare) and isinstance(n.ops[0], (ast.NotEq, ast.Eq)) and isinstance(n.comparators[0], ast.Constant) and isinstance(n.comparators[0].value, int):
-            l = inline(dr, n.left)
+            l = inline_except(dr, n.left, keep)
             if isinstance(l, ast.Subscript) and norm(l.value) == hdr_var and isinstance(l.slice, ast.Constant) and l.slice.value == 0:
                 r_marker = n.comparators[0].value
     ctx.ob("C02.R3", dr, "reader and writer agree on the marker byte", r_marker is not None and r_marker == w_marker == 1, f"reader compares with {r_marker}, writer emits {w_marker}")
